@@ -64,8 +64,23 @@ GHOST code in the hooks: at `x._reaction.add(r)` the value of `r in x._reaction`
 trace and the witness maps are extended.
 Engine: NO change of pyvc.  c02_add_reactions.py: its hooks are active for this key too (`ME_KEYS`), `_apply_add_metabolites` takes the
 variant precondition as an optional argument (default unchanged).
-MUTANTS (tools/mutate_and_run.sh on cobra/core/model.py, key Model.add_reactions[context]; each is NOT discharged): see the end of this
-docstring (filled in after the trials).
+VACUITY / GUARDS: 375 + 4 obligations, one path per case, inv-init / inv-preserve for both loops; the glue lemmas fail (unknown) when
+the precondition own-keys-do-not-list (back-references), the SETM completeness clause (model-pointers) or the key completeness clause
+(back-references) is dropped, and `False` does not follow from their hypotheses (sat).
+MUTANTS (tools/mutate_and_run.sh on cobra/core/model.py, key Model.add_reactions[context]; each is NOT discharged, the obligation that
+breaks is named; obligation numbers of the loop invariants: AR's conjuncts first, then own-keys, [the two joined-metabolite clauses,]
+trace length, entry justification, SETM/UG per reaction, key completeness, order ...):
+  M1 `context(partial(setattr, reaction, "_model", None))` skipped -> loop#1/inv-init.39 - .44 (the SETM entry of the reaction being
+     handled exists and precedes its other entries);
+  M2 the else-branch registers the remove on the FOREIGN copy (`partial(metabolite._reaction.remove, reaction)`) ->
+     loop#1/inv-preserve.35~3 (an XREM entry is for a key the reaction has now) and .45~3 (every handled key has its entry);
+  M3 the guard of the joining branch dropped (`if True:`) -> loop#1/inv-preserve.35 (an XREM entry inverts an add that changed the
+     set: the remove would be registered for a no-op add);
+  M4 `context(partial(model_metabolite._reaction.remove, reaction))` skipped -> loop#1/inv-preserve.45~3 (every handled key has its
+     XREM / AM entry);
+  M5 the RISUB registration moved BEFORE `self.reactions += pruned` -> exit post.45 sat (model.reactions at the registration is not the
+     exit list);
+  M6 the RISUB registration skipped -> exit post sat (no RISUB registration recorded).
 """
 import z3
 import cobra  # noqa
@@ -191,7 +206,6 @@ def call_object_hook(eng, st, f, pos, kw):
         st = _append(st, kind, x, y, f.t, eff)
         if kind == K_RISUB:
             # snapshot: the content of model.reactions and of `pruned` at the registration (the post-condition compares them with exit)
-            model = eng.entry_args.get("self")
             st = st.setghost("aru_risub_state", st)
         return [("ok", st, NONE)]
     return None
